@@ -2,6 +2,8 @@ package main
 
 import (
 	"fmt"
+	"go/constant"
+	"go/token"
 	"go/types"
 	"sort"
 	"strings"
@@ -599,6 +601,121 @@ func runC09(c *Ctx) {
 		c.Ob("C09-R5", "dirty-tracking sites found", "", nFire >= 6 && nDel >= 4 && nIns >= 2, fmt.Sprintf("%d fire/disarm sites, %d deletions, %d insertions, %d direct marks", nFire, nDel, nIns, nDirect))
 	})
 	c.Min("C09-R5", 12)
+
+	c.Rule("C09-R6", "flush marks: a storage slot or code that differs from the committed trie stays marked until it is flushed", func() {
+		// The live reads come from cachedStorage / code, the root and the reopened state from what updateTrie / Commit
+		// flush, and they flush only what dirtyStorage / dirtyCode name. So a write to the cache that is not mirrored
+		// in the marks (or a mark removed before the flush) makes root and reopened state depend on history.
+		mapField := func(v ssa.Value) (string, ssa.Value) {
+			if u, ok := v.(*ssa.UnOp); ok && u.Op == token.MUL {
+				if fa, ok := u.X.(*ssa.FieldAddr); ok {
+					return fieldName(fa), fa.X
+				}
+			}
+			return "", nil
+		}
+		fillers := map[string]string{"(*core/state.stateObject).GetState": "cache fill with the value just read from the committed trie"}
+		wholeField := map[string]bool{"core/state.newObject": true, "(*core/state.stateObject).deepCopy": true}
+		nCache, nDel, nCode := 0, 0, 0
+		for _, fn := range fns {
+			name := shortFn(fn)
+			var retBlocks []*ssa.BasicBlock
+			for _, b := range fn.Blocks {
+				if len(b.Instrs) > 0 {
+					if _, ok := b.Instrs[len(b.Instrs)-1].(*ssa.Return); ok {
+						retBlocks = append(retBlocks, b)
+					}
+				}
+			}
+			for _, b := range fn.Blocks {
+				for _, ins := range b.Instrs {
+					switch x := ins.(type) {
+					case *ssa.MapUpdate:
+						fld, base := mapField(x.Map)
+						if fld != "cachedStorage" {
+							continue
+						}
+						nCache++
+						if why, ok := fillers[name]; ok {
+							c.Ob("C09-R6", name+": cachedStorage written without a dirty mark: reviewed cache fill", c.Position(x.Pos()), true, why)
+							continue
+						}
+						// the mirror lies on every path through the cache write: same block, a dominating block,
+						// or a block no path from the write to a return avoids
+						mirrored := false
+						for _, b2 := range fn.Blocks {
+							for _, ins2 := range b2.Instrs {
+								y, ok := ins2.(*ssa.MapUpdate)
+								if !ok {
+									continue
+								}
+								if f2, base2 := mapField(y.Map); f2 != "dirtyStorage" || base2 != base || y.Key != x.Key || y.Value != x.Value {
+									continue
+								}
+								switch {
+								case b2 == b, b2.Dominates(b):
+									mirrored = true
+								default:
+									escapes := false
+									for _, rb := range retBlocks {
+										if rb != b2 && reaches(b, rb, b2) {
+											escapes = true
+										}
+									}
+									if !escapes && len(retBlocks) > 0 {
+										mirrored = true
+									}
+								}
+							}
+						}
+						c.Ob("C09-R6", name+": a write to cachedStorage is mirrored in dirtyStorage (same key, same value, same path)", c.Position(x.Pos()), mirrored, "")
+					case *ssa.Call:
+						if bi, ok := x.Call.Value.(*ssa.Builtin); ok && bi.Name() == "delete" && len(x.Call.Args) == 2 {
+							if fld, _ := mapField(x.Call.Args[0]); fld == "dirtyStorage" {
+								nDel++
+								c.Ob("C09-R6", name+": a dirty-storage mark is removed only by the flush (updateTrie)", c.Position(x.Pos()), name == "(*core/state.stateObject).updateTrie", "")
+							}
+						}
+					case *ssa.Store:
+						fa, ok := x.Addr.(*ssa.FieldAddr)
+						if !ok || typeShort(fa.X.Type()) != "stateObject" {
+							continue
+						}
+						switch fieldName(fa) {
+						case "dirtyStorage":
+							c.Ob("C09-R6", name+": the dirty-storage set is replaced as a whole only when an object is built or copied", c.Position(x.Pos()), wholeField[name], "")
+						case "dirtyCode":
+							nCode++
+							k, isConst := x.Val.(*ssa.Const)
+							switch {
+							case isConst && k.Value != nil && constant.BoolVal(k.Value):
+								dom := len(retBlocks) > 0
+								for _, rb := range retBlocks {
+									if !b.Dominates(rb) {
+										dom = false
+									}
+								}
+								_, onRecv := fa.X.(*ssa.Parameter)
+								c.Ob("C09-R6", name+": dirtyCode is set on every path of the code setter", c.Position(x.Pos()), dom && onRecv, "")
+							case isConst:
+								c.Ob("C09-R6", name+": dirtyCode is cleared only by Commit (after the code was written, C04-R2)", c.Position(x.Pos()), name == "(*core/state.StateDB).Commit", "")
+							default:
+								fld, _ := mapField(x.Val)
+								c.Ob("C09-R6", name+": dirtyCode takes a computed value only as a copy of another object's flag", c.Position(x.Pos()), wholeField[name] && fld == "dirtyCode", c.termOf(fn, x.Val))
+							}
+						case "code":
+							// a code setter on the receiver also raises the flag (cache fill in Code() and copies exempt)
+							if _, onRecv := fa.X.(*ssa.Parameter); onRecv && name != "(*core/state.stateObject).Code" {
+								c.Ob("C09-R6", name+": storing the receiver's code raises dirtyCode in the same function", c.Position(x.Pos()), writesField(fn, "dirtyCode"), "")
+							}
+						}
+					}
+				}
+			}
+		}
+		c.Ob("C09-R6", "flush-mark sites found", "", nCache >= 2 && nDel >= 1 && nCode >= 3, fmt.Sprintf("%d cache writes, %d mark removals, %d dirtyCode stores", nCache, nDel, nCode))
+	})
+	c.Min("C09-R6", 8)
 }
 
 func keysOfFn(m map[string]*ssa.Function) []string {
